@@ -3,7 +3,7 @@
    counterexample checker with which checks/c10.py certifies a refutation of C10_dispatch. *)
 From Coq Require Import String List Bool Arith.
 From CF Require Import Model.Tables Model.TableSem Model.Features.
-From CF Require Import Proofs.TableProofs Proofs.FactsDispatch Proofs.FactsSafeSlots.
+From CF Require Import Proofs.TableProofs.
 From CF Require Import Gen.GenExports Gen.GenSafe Gen.GenMacros Gen.GenDispatch Gen.GenFeatures.
 Import ListNotations.
 Open Scope string_scope.
